@@ -33,6 +33,7 @@ def cfg_for(rng, k):
     c.p_transitive_ref = 0.5
     c.p_shared_as_name = 0.4
     c.p_subdir = 0.4
+    c.p_odd_basename = 0.12
     c.extensible = k % 3 != 0
     return c
 
@@ -395,7 +396,12 @@ def worker(ctx):
                 try:
                     tree = ast.parse(text)
                 except SyntaxError as e:
-                    res.violation("python-syntax", f"{g.basename}_bp.py is not valid Python: {e}", wit)
+                    odd = [i.file.basename for i in g.imports if not i.file.basename.isidentifier()]
+                    line = text.splitlines()[e.lineno - 1] if e.lineno and e.lineno <= len(text.splitlines()) else ""
+                    if odd and line.startswith("import ") and any(b in line for b in odd):
+                        res.violation("py-import-statement-from-file-name", f"{g.basename}_bp.py: `{line}` is no Python (imported file name {odd[0]!r})", wit)
+                    else:
+                        res.violation("python-syntax", f"{g.basename}_bp.py is not valid Python: {e}", wit)
                     continue
                 names = []
                 for node in tree.body:
@@ -414,6 +420,9 @@ def worker(ctx):
             except Exception as e:
                 tb = traceback.format_exc()
                 key = f"python-import:{type(e).__name__}"
+                if isinstance(e, (SyntaxError, ModuleNotFoundError)) and any(not i.file.basename.isidentifier() for g2 in files for i in g2.imports) \
+                        and re.search(r"import [\w.-]*[.-][\w.-]*_bp|No module named '[\w-]+\.", tb + str(e)):
+                    key = "py-import-statement-from-file-name"
                 if class_body_rebinding(root) and re.search(r"object is not callable|object has no attribute", str(e)) and re.search(r", in (Widget|\w+)\n", tb):
                     key = "py-class-body-name-rebound-by-field"
                 res.violation(key, f"generated Python does not import: {type(e).__name__}: {str(e)[:200]}", {**wit, "traceback": tb[-1000:]})
